@@ -10,7 +10,7 @@ from tv import lang
 from tv.lang import RefErr, Unspecified, Env, ref_eval
 
 RULE_NAMES = ['Netflix', 'Uber Eats', 'Uber', 'AMZN #1', 'Rule 7', 'Coffee ☕', 'Big Box', 'Wire', 'Misc', "O'Neil's", 'A_B', 'A B',
-              'Large', 'Holiday', 'Travel-Inn', 'x', 'Amazon: Prime', 'Orig Co Name:Venmo']
+              'Large', 'Holiday', 'Travel-Inn', 'x', 'Amazon: Prime', 'Orig Co Name:Venmo', "Trader Joe's [Bay Area]", 'AMZN [Prime]']
 CATEGORIES = ['Food', 'Subscriptions', 'Bills & Utilities', 'Shopping', 'Transport', 'Transfers: Out']
 SUBCATS = ['', '', 'Streaming', 'Delivery', 'Online', 'Rideshare']
 STATIC_TAGS = ['recurring', 'Food', ' large ', 'INCOME', 'transfer', 'business', 'Review', 'x-y', 'ünï', '#tax', 'schedule #e', "macy's", "kohl's", 'say "hi"']
